@@ -450,8 +450,9 @@ class Recfile(object):
 
         if self.is_ascii:
             # for ascii, make sure the data are in native format.  This greatly
-            # simplifies the C code
-            to_native_inplace(dataview)
+            # simplifies the C code.  A converted copy is made if needed; the
+            # caller's array is not modified
+            dataview = to_native(dataview)
 
         self.robj.Write(dataview)
 
@@ -962,6 +963,28 @@ def remove_dtype_byteorder(dtype):
         newdt.append(dt)
 
     return newdt
+
+
+def to_native(array):
+    """
+    Get the data in native byte ordering.  Each field is converted according
+    to its own byte order.  A copy is made only if a conversion is needed
+    """
+    dtype = array.dtype
+    if dtype.names is None:
+        native_dtype = dtype.newbyteorder("=")
+    else:
+        # keep the layout, only change the byte order of the fields
+        native_dtype = numpy.dtype({
+            "names": list(dtype.names),
+            "formats": [
+                dtype.fields[n][0].newbyteorder("=") for n in dtype.names
+            ],
+            "offsets": [dtype.fields[n][1] for n in dtype.names],
+            "itemsize": dtype.itemsize,
+        })
+
+    return array.astype(native_dtype, copy=False)
 
 
 def to_native_inplace(array):
